@@ -90,12 +90,24 @@ def _cds_events(args):
         cod = E.outcome(lambda: _loclist(cds.chromosome_codon_locations))
         ccod = E.outcome(lambda: _loclist(cds.chunk_relative_codon_locations))
         ncod = E.outcome(lambda: cds.num_codons)
-        seq1 = E.outcome(lambda: list(str(cds.extract_sequence())))
+        # extract_sequence is memoised: "the sequence after the codons were listed" needs an object whose codons were
+        # listed BEFORE its sequence was ever asked for
+        try:
+            cdsB = mk_cds(blocks, st, frames, root)
+            E.outcome(lambda: (cdsB.num_chunk_relative_codons if rnd.random() < 0.5 else cdsB.chunk_relative_codon_locations))
+        except Exception:
+            cdsB = cds
+        seq1 = E.outcome(lambda: list(str(cdsB.extract_sequence())))
+        overl = any(blocks[i][1] > blocks[j][0] for i in range(len(blocks)) for j in range(i + 1, len(blocks)))
+        if rnd.random() < 0.5 and not overl:
+            cds = cdsB  # translations and flags asked of either object (overlapping layouts: the keyed order finding)
         trs = []
         for (tr, tb, strict) in [(False, 0, True), (True, 11, False), (rnd.random() < 0.5, rnd.choice([0, 1, 11]),
                                                                         rnd.random() < 0.5)]:
-            trs.append([tr, tb, strict, E.outcome(lambda tr=tr, tb=tb, strict=strict: list(str(cds.translate(
-                truncate_at_in_frame_stop=tr, translation_table=tables[tb], strict=strict))))])
+            # (the table is an IntEnum: named by its NCBI number half the time, which is the same table)
+            tsel = tables[tb] if rnd.random() < 0.5 else int(tables[tb])
+            trs.append([tr, tb, strict, E.outcome(lambda tr=tr, tsel=tsel, strict=strict: list(str(cds.translate(
+                truncate_at_in_frame_stop=tr, translation_table=tsel, strict=strict))))])
         flags = [E.outcome(lambda: cds.has_valid_stop), E.outcome(lambda: cds.has_in_frame_stop),
                  E.outcome(lambda: cds.has_canonical_start_codon)] + [
             E.outcome(lambda t=t: cds.has_start_codon_in_specific_translation_table(tables[t])) for t in (0, 1, 11)]
